@@ -1,8 +1,10 @@
 package owa
 
 import (
+	"fmt"
 	"github.com/Azbesciak/RealDecisionMaker/lib/model"
 	"github.com/Azbesciak/RealDecisionMaker/lib/utils"
+	"sort"
 )
 
 type OwaBiasListener struct {
@@ -14,8 +16,29 @@ func (h *OwaBiasListener) Identifier() string {
 
 func (h *OwaBiasListener) Merge(params model.MethodParameters, addition model.MethodParameters) model.MethodParameters {
 	oldParams := params.(owaParams)
-	newParams := addition.(owaParams)
+	newParams := asOwaParams(addition)
 	return *oldParams.merge(&newParams)
+}
+
+// OnCriterionAdded reports the new weight as model.WeightType, so Merge has to accept that form as well
+func asOwaParams(addition model.MethodParameters) owaParams {
+	switch a := addition.(type) {
+	case owaParams:
+		return a
+	case model.WeightType:
+		ids := make([]string, 0, len(a.Weights))
+		for id := range a.Weights {
+			ids = append(ids, id)
+		}
+		sort.Strings(ids)
+		weights := make(model.WeightedCriteria, len(ids))
+		for i, id := range ids {
+			weights[i] = model.WeightedCriterion{Criterion: model.Criterion{Id: id, Type: model.Gain}, Weight: a.Weights[id]}
+		}
+		return owaParams{Weights: &weights}
+	default:
+		panic(fmt.Errorf("owa: cannot merge parameters of type %T", addition))
+	}
 }
 
 func (h *OwaBiasListener) OnCriterionAdded(
